@@ -204,6 +204,8 @@ Section Main.
   Variable TYPE_KEY : string.
   Variable skey : sortkey.
   Variable cmp : cmpop.
+  Variable cset : candset.
+  Variable rset : reqset.
   Variable pk : pick.
   Variable drule : droprule.
   Variable dis_absent : bool.
@@ -212,21 +214,22 @@ Section Main.
   Variable modname : string.
   Variable enum : string -> list string.
 
-  Hypothesis Hskey : skey = KInitCount.
+  Hypothesis Hskey : skey = KAllCount.
+  Hypothesis Hcset : cset = FAll.
+  Hypothesis Hrset : rset = ReqAll.
   Hypothesis Hcmp : cmp = CGe.
   Hypothesis Hpk : pk = PickFirst.
   Hypothesis Hwf : wf_hier TYPE_KEY h = true.
-  Hypothesis Hinit : init_only h = true.          (* used by the search theorems only; see C14_identified_refuted *)
   (* the enumeration lists exactly the classes below, in ANY order (repetitions allowed) *)
   Hypothesis Henum : forall b n, In n (enum b) <-> In n (map c_name (descendants h b)).
 
-  Notation fser := (from_ser TYPE_KEY skey cmp pk drule dis_absent child_drop h modname enum).
-  Notation dkvs := (decode_kvs TYPE_KEY skey cmp pk drule dis_absent child_drop h modname enum).
-  Notation ditems := (decode_items TYPE_KEY skey cmp pk drule dis_absent child_drop h modname enum).
-  Notation bld := (build skey cmp pk drule dis_absent child_drop h enum).
+  Notation fser := (from_ser TYPE_KEY skey cmp cset rset pk drule dis_absent child_drop h modname enum).
+  Notation dkvs := (decode_kvs TYPE_KEY skey cmp cset rset pk drule dis_absent child_drop h modname enum).
+  Notation ditems := (decode_items TYPE_KEY skey cmp cset rset pk drule dis_absent child_drop h modname enum).
+  Notation bld := (build skey cmp cset rset pk drule dis_absent child_drop h enum).
   Notation tser := (to_ser TYPE_KEY modname).
   Notation fldser := (fields_ser TYPE_KEY modname).
-  Notation chs := (choose skey cmp pk h enum).
+  Notation chs := (choose skey cmp cset pk h enum).
   Notation cands := (candidates h enum).
 
   (* the effective drop_extra_fields of a call on class n *)
@@ -310,42 +313,42 @@ Section Main.
       + rewrite (find_class_unique h C wf_names Hin). left. reflexivity.
   Qed.
 
-  Lemma init_fields_all c : In c h -> init_fields c = c_fields c.
-  Proof.
-    intros Hin. unfold init_only in Hinit. rewrite forallb_forall in Hinit. specialize (Hinit c Hin).
-    rewrite forallb_forall in Hinit. unfold init_fields. apply filter_all. exact Hinit.
-  Qed.
+  Lemma cmp_is_has_all c req : cmp_holds cmp (cand_names cset c) req = has_all c req.
+  Proof. unfold cmp_holds, cand_names. rewrite Hcmp, Hcset. reflexivity. Qed.
 
-  Lemma cmp_is_has_all c req : In c h -> cmp_holds cmp (init_names c) req = has_all c req.
-  Proof. intros Hin. unfold cmp_holds, init_names. rewrite Hcmp, (init_fields_all c Hin). reflexivity. Qed.
-
-  Lemma key_is_nfields c : In c h -> key_of skey c = nfields c.
-  Proof. intros Hin. unfold key_of. rewrite Hskey, (init_fields_all c Hin). reflexivity. Qed.
-
-  Lemma cands_in_h b C : In C (cands b) -> In C h.
-  Proof. intros H. apply candidates_iff, in_descendants in H as [H _]. exact H. Qed.
+  Lemma key_is_nfields c : key_of skey c = nfields c.
+  Proof. unfold key_of. rewrite Hskey. reflexivity. Qed.
 
   Lemma choose_some b req R : chs b req = Some R ->
     In R (descendants h b) /\ has_all R req = true
     /\ forall C, In C (descendants h b) -> has_all C req = true -> nfields R <= nfields C.
   Proof.
     unfold choose. rewrite Hpk. intros H.
-    pose proof (find_some _ _ H) as [Hin HP]. cbv beta in HP. rewrite sort_by_In in Hin.
-    pose proof (cands_in_h b R Hin) as HRh. rewrite (cmp_is_has_all R req HRh) in HP.
+    pose proof (find_some _ _ H) as [Hin HP]. cbv beta in HP. rewrite sort_by_In in Hin. rewrite cmp_is_has_all in HP.
     split; [apply candidates_iff, Hin|]. split; [exact HP|].
-    intros C HC HCa. pose proof HC as HC'. apply in_descendants in HC' as [HCh _].
-    rewrite <- (key_is_nfields R HRh), <- (key_is_nfields C HCh).
+    intros C HC HCa. rewrite <- !key_is_nfields.
     eapply (find_sorted_min (key_of skey)); [apply sort_by_sorted|exact H| |].
     - apply sort_by_In, candidates_iff, HC.
-    - cbv beta. rewrite (cmp_is_has_all C req HCh). exact HCa.
+    - cbv beta. rewrite cmp_is_has_all. exact HCa.
   Qed.
 
   Lemma choose_none b req : chs b req = None -> forall C, In C (descendants h b) -> has_all C req = false.
   Proof.
     unfold choose. rewrite Hpk. intros H C HC.
-    pose proof HC as HC'. apply in_descendants in HC' as [HCh _].
-    pose proof (find_none _ _ H C) as X. cbv beta in X. rewrite (cmp_is_has_all C req HCh) in X. apply X.
+    pose proof (find_none _ _ H C) as X. cbv beta in X. rewrite cmp_is_has_all in X. apply X.
     apply sort_by_In, candidates_iff, HC.
+  Qed.
+
+  (* the required names: the extra keys and every field found in the dict, init or not *)
+  Lemma req_names_In c extra present k :
+    In k (req_names rset c extra present) <-> In k (extra ++ map fst present)%list.
+  Proof.
+    unfold req_names. rewrite Hrset. rewrite !in_app_iff, !in_map_iff. split.
+    - intros [H|[[kv [E H]]|[kv [E H]]]]; [left; exact H| |]; right; exists kv; apply filter_In in H as [H _]; auto.
+    - intros [H|[kv [E H]]]; [left; exact H|]. right.
+      destruct (is_init c (fst kv)) eqn:Ei.
+      + left. exists kv. split; [exact E|]. apply filter_In. auto.
+      + right. exists kv. split; [exact E|]. apply filter_In. rewrite Ei. auto.
   Qed.
 
   (* ---------- one entry of the dict, as decode_kvs treats it ---------- *)
@@ -456,7 +459,7 @@ Section Main.
     exists present, collect (c_fields c) (dec (ftype_of c) (model_drop (c_name c) dropo)) = Ok present /\
     ( ((extras_of c keys = [] \/ model_drop (c_name c) dropo = true) /\ construct c present = Ok v)
       \/ (extras_of c keys <> [] /\ model_drop (c_name c) dropo = false /\ exists child present2,
-            chs (c_name c) (extras_of c keys ++ map fst (filter (fun kv => is_init c (fst kv)) present))%list = Some child /\
+            chs (c_name c) (req_names rset c (extras_of c keys) present) = Some child /\
             collect (c_fields child) (dec (ftype_of child) child_drop) = Ok present2 /\
             construct child present2 = Ok v) ).
   Proof.
@@ -468,7 +471,7 @@ Section Main.
     - destruct (model_drop (c_name c) dropo) eqn:Ed.
       + left. split; [right; reflexivity|exact H].
       + right. split; [discriminate|]. split; [reflexivity|].
-        destruct (chs (c_name c) ((e :: es) ++ map fst (filter (fun kv => is_init c (fst kv)) present))%list) as [child|] eqn:Ech; [|discriminate].
+        destruct (chs (c_name c) (req_names rset c (e :: es) present)) as [child|] eqn:Ech; [|discriminate].
         destruct (collect (c_fields child) (dec (ftype_of child) child_drop)) as [p2|] eqn:Ec2; [|discriminate].
         destruct (extras_of child keys); [|discriminate].
         exists child, p2. auto.
@@ -477,7 +480,7 @@ Section Main.
   Lemma build_child dec keys c dropo present child p2 :
     collect (c_fields c) (dec (ftype_of c) (model_drop (c_name c) dropo)) = Ok present ->
     extras_of c keys <> [] -> model_drop (c_name c) dropo = false ->
-    chs (c_name c) (extras_of c keys ++ map fst (filter (fun kv => is_init c (fst kv)) present))%list = Some child ->
+    chs (c_name c) (req_names rset c (extras_of c keys) present) = Some child ->
     collect (c_fields child) (dec (ftype_of child) child_drop) = Ok p2 ->
     extras_of child keys = [] ->
     bld dec keys c dropo = construct child p2.
@@ -515,20 +518,6 @@ Section Main.
       + left. split; [exact Hk|reflexivity].
   Qed.
 
-  Lemma filter_init_all c dec present : In c h -> collect (c_fields c) dec = Ok present ->
-    filter (fun kv => is_init c (fst kv)) present = present.
-  Proof.
-    intros Hin Hc. apply filter_all. intros kv Hkv.
-    assert (Hk : In (fst kv) (map fst present)) by (apply in_map, Hkv).
-    apply (collect_keys _ _ _ Hc) in Hk as [Hk _].
-    unfold is_init, find_field.
-    destruct (find (fun f => String.eqb (f_name f) (fst kv)) (c_fields c)) as [g|] eqn:E.
-    - apply find_some in E as [Hg _]. unfold init_only in Hinit. rewrite forallb_forall in Hinit.
-      specialize (Hinit c Hin). rewrite forallb_forall in Hinit. apply Hinit, Hg.
-    - apply in_map_iff in Hk as [f [Hn Hf]]. pose proof (find_none _ _ E f Hf) as X. cbv beta in X.
-      rewrite Hn, String.eqb_refl in X. discriminate.
-  Qed.
-
   (* ---------- C14_superset / C14_drop (class part): which class a dict loads as ---------- *)
   Theorem result_admissible base dropo kvs v :
     sf_get TYPE_KEY kvs = None ->
@@ -546,7 +535,6 @@ Section Main.
       + apply extras_nil_iff in He. rewrite He, orb_true_r. apply String.eqb_refl.
       + rewrite Hd. apply String.eqb_refl.
     - apply construct_inv in Hcon as [vs [-> Hk]].
-      rewrite (filter_init_all B _ present HB Hc) in Hch.
       rewrite HBn in *. apply choose_some in Hch as [Hdesc [Hall Hmin]].
       pose proof Hdesc as Hd'. apply in_descendants in Hd' as [Hchild Hanc].
       pose proof (find_class_unique h child wf_names Hchild) as Hfc.
@@ -555,7 +543,8 @@ Section Main.
       assert (HnB : has_all B (sf_keys kvs) = false).
       { destruct (has_all B (sf_keys kvs)) eqn:E; [|reflexivity]. apply extras_nil_iff in E. contradiction. }
       rewrite HnB. simpl. unfold min_superset. rewrite Hfc.
-      pose proof (req_keys B _ kvs present HB Ht Hc) as Hreq.
+      assert (Hreq : forall k, In k (req_names rset B (extras_of B (sf_keys kvs)) present) <-> In k (sf_keys kvs)).
+      { intros k. rewrite req_names_In. apply (req_keys B _ kvs present HB Ht Hc). }
       apply andb_true_iff. split; [apply andb_true_iff; split|].
       + apply str_in_In, Hanc.
       + rewrite <- (has_all_ext child _ _ Hreq). exact Hall.
@@ -710,11 +699,11 @@ Section Main.
       assert (Hex : extras_of B (field_names d) <> []).
       { intros E. apply extras_nil_iff in E. congruence. }
       rewrite <- HBn in Hdrop.
-      pose proof (req_keys B _ _ present HB Ht HcB) as Hreq. rewrite Hkeys in Hreq.
+      assert (Hreq : forall k, In k (req_names rset B (extras_of B (field_names d)) present) <-> In k (field_names d)).
+      { intros k. rewrite req_names_In. pose proof (req_keys B _ _ present HB Ht HcB k) as X. rewrite Hkeys in X. exact X. }
       assert (Hddesc : In d (descendants h (c_name B))).
       { apply in_descendants. split; [exact Hd|]. rewrite HBn. exact Hanc. }
-      pose proof (filter_init_all B _ present HB HcB) as Hfi.
-      destruct (chs (c_name B) (extras_of B (field_names d) ++ map fst present)%list) as [child|] eqn:Ech.
+      destruct (chs (c_name B) (req_names rset B (extras_of B (field_names d)) present)) as [child|] eqn:Ech.
       + pose proof (choose_some _ _ _ Ech) as [Hcd [Hca Hmin]].
         rewrite (has_all_ext child _ _ Hreq) in Hca.
         assert (Hle : nfields child <= nfields d).
@@ -730,7 +719,7 @@ Section Main.
             pose proof (find_class_unique h d wf_names Hd) as U2. rewrite E in U1. congruence. }
           subst child. destruct (Hfull child_drop) as [p2 [Hc2 Hcon]].
           rewrite HBn in *.
-          rewrite (build_child _ _ B dropo present d p2); try rewrite Hfi; try rewrite HBn; auto.
+          rewrite (build_child _ _ B dropo present d p2); try rewrite HBn; auto.
         * exfalso. apply negb_true_iff in Hc2. unfold same_fields in Hc2.
           rewrite Hca in Hc2. simpl in Hc2.
           rewrite (nodup_same_fields child d (wf_fields_nodup d Hd) Hca Hle) in Hc2. discriminate.
@@ -892,7 +881,12 @@ Definition eff_drop_gen (h : hier) (base : string) (dropo : option bool) : bool 
   model_drop DROP_RULE_GEN DIS_ABSENT_GEN h base dropo.
 
 (* bridges: what the property needs of the generated facts (each closes by computation, or the build breaks here) *)
-Lemma bridge_sort_key : SORT_KEY_GEN = KInitCount.
+(* the search looks at ALL the fields that to_dict writes (init or not): count, candidate names, required names *)
+Lemma bridge_sort_key : SORT_KEY_GEN = KAllCount.
+Proof. reflexivity. Qed.
+Lemma bridge_cand_fields : CAND_FIELDS_GEN = FAll.
+Proof. reflexivity. Qed.
+Lemma bridge_required : REQUIRED_GEN = ReqAll.
 Proof. reflexivity. Qed.
 Lemma bridge_superset_cmp : SUPERSET_CMP_GEN = CGe.
 Proof. reflexivity. Qed.
@@ -906,45 +900,45 @@ Lemma bridge_type_key : DC_TYPE_KEY = SPEC_TYPE_KEY.
 Proof. reflexivity. Qed.
 
 Lemma result_admissible_gen h modname enum base dropo kvs v :
-  wf_hier_gen h = true -> init_only h = true -> enum_ok h enum -> sf_get DC_TYPE_KEY kvs = None ->
+  wf_hier_gen h = true -> enum_ok h enum -> sf_get DC_TYPE_KEY kvs = None ->
   from_ser_gen h modname enum base dropo (SMap kvs) = Ok v ->
   exists R fs r, v = VObj R fs /\ find_class h R = Some r /\ vf_keys fs = field_names r
                  /\ admissible h base (sf_keys kvs) (eff_drop_gen h base dropo) R = true.
 Proof.
-  intros Hwf Hi He. unfold from_ser_gen, eff_drop_gen.
-  apply result_admissible; auto using bridge_sort_key, bridge_superset_cmp, bridge_pick.
+  intros Hwf He. unfold from_ser_gen, eff_drop_gen.
+  apply result_admissible; auto using bridge_sort_key, bridge_superset_cmp, bridge_pick, bridge_cand_fields, bridge_required.
 Qed.
 
 Lemma superset_gen h modname enum base dropo kvs R fs B :
-  wf_hier_gen h = true -> init_only h = true -> enum_ok h enum -> sf_get DC_TYPE_KEY kvs = None ->
+  wf_hier_gen h = true -> enum_ok h enum -> sf_get DC_TYPE_KEY kvs = None ->
   find_class h base = Some B -> has_all B (sf_keys kvs) = false -> eff_drop_gen h base dropo = false ->
   from_ser_gen h modname enum base dropo (SMap kvs) = Ok (VObj R fs) ->
   min_superset h base (sf_keys kvs) R = true.
 Proof.
-  intros Hwf Hi He Ht HB Hx Hd H.
-  destruct (result_admissible_gen _ _ _ _ _ _ _ Hwf Hi He Ht H) as [R' [fs' [r [Hv [_ [_ Ha]]]]]].
+  intros Hwf He Ht HB Hx Hd H.
+  destruct (result_admissible_gen _ _ _ _ _ _ _ Hwf He Ht H) as [R' [fs' [r [Hv [_ [_ Ha]]]]]].
   injection Hv as <- <-. unfold admissible in Ha. rewrite HB, Hd, Hx in Ha. exact Ha.
 Qed.
 
 Lemma no_extras_gen h modname enum base dropo kvs R fs B :
-  wf_hier_gen h = true -> init_only h = true -> enum_ok h enum -> sf_get DC_TYPE_KEY kvs = None ->
+  wf_hier_gen h = true -> enum_ok h enum -> sf_get DC_TYPE_KEY kvs = None ->
   find_class h base = Some B -> has_all B (sf_keys kvs) = true ->
   from_ser_gen h modname enum base dropo (SMap kvs) = Ok (VObj R fs) ->
   R = base.
 Proof.
-  intros Hwf Hi He Ht HB Hx H.
-  destruct (result_admissible_gen _ _ _ _ _ _ _ Hwf Hi He Ht H) as [R' [fs' [r [Hv [_ [_ Ha]]]]]].
+  intros Hwf He Ht HB Hx H.
+  destruct (result_admissible_gen _ _ _ _ _ _ _ Hwf He Ht H) as [R' [fs' [r [Hv [_ [_ Ha]]]]]].
   injection Hv as <- <-. unfold admissible in Ha. rewrite HB, Hx, orb_true_r in Ha. apply String.eqb_eq, Ha.
 Qed.
 
 Lemma identified_gen h modname enum base dropo d fs :
-  wf_hier_gen h = true -> init_only h = true -> enum_ok h enum ->
+  wf_hier_gen h = true -> enum_ok h enum ->
   In d h -> identified h base d = true -> flat_class d = true -> flat_fields fs = true ->
   vf_keys fs = field_names d -> eff_drop_gen h base dropo = false ->
   from_ser_gen h modname enum base dropo (to_ser_gen modname false (VObj (c_name d) fs)) = Ok (VObj (c_name d) fs).
 Proof.
-  intros Hwf Hi He. unfold from_ser_gen, to_ser_gen, eff_drop_gen.
-  apply identified_thm; auto using bridge_sort_key, bridge_superset_cmp, bridge_pick.
+  intros Hwf He. unfold from_ser_gen, to_ser_gen, eff_drop_gen.
+  apply identified_thm; auto using bridge_sort_key, bridge_superset_cmp, bridge_pick, bridge_cand_fields, bridge_required.
 Qed.
 
 Lemma drop_exact_base_gen h modname enum base dropo kvs v :
@@ -967,7 +961,7 @@ Lemma dc_types_partial_gen h modname enum base dropo v :
   from_ser_gen h modname enum base dropo (to_ser_gen modname true v) = Ok v.
 Proof.
   intros Hwf Hwt Hdc. unfold from_ser_gen, to_ser_gen.
-  exact (proj1 (dc_types_mutual DC_TYPE_KEY SORT_KEY_GEN SUPERSET_CMP_GEN PICK_GEN DROP_RULE_GEN DIS_ABSENT_GEN
+  exact (proj1 (dc_types_mutual DC_TYPE_KEY SORT_KEY_GEN SUPERSET_CMP_GEN CAND_FIELDS_GEN REQUIRED_GEN PICK_GEN DROP_RULE_GEN DIS_ABSENT_GEN
                   CHILD_DROP_GEN h modname enum Hwf) v Hwt Hdc base dropo).
 Qed.
 
@@ -982,28 +976,16 @@ Definition refute_enum (b : string) : list string := rev (map c_name (descendant
 Definition refute_v : value :=
   VObj "H" (VCons "xs" (VList (VCons "" (VObj "D1" (VCons "a" (VInt 1) (VCons "b" (VInt 2) VNil))) VNil)) VNil).
 
-(* ... and so is "identified => recovered" once a class has a field(init=False): to_dict writes it, the base does not
-   know it, and the search only looks at INIT fields of the candidates, so no class qualifies *)
-Definition refute_init_h : hier :=
+(* the witness of the repaired defect (a derived class with a field(init=False) could not be loaded through its base):
+   kept as an input of Example C14_nonvacuous and in corpus/C14 *)
+Definition noninit_h : hier :=
   [ mkc "Base" [] [mkf "a" TInt (Some (VInt 0)) true] (Some true);
     mkc "D1" ["Base"] [mkf "a" TInt (Some (VInt 0)) true; mkf "b" TInt (Some (VInt 0)) true;
-                       mkf "n" TInt (Some (VInt 70)) false] None ].
-Definition refute_init_enum (b : string) : list string := map c_name (descendants refute_init_h b).
-Definition refute_init_d : cdecl :=
-  mkc "D1" ["Base"] [mkf "a" TInt (Some (VInt 0)) true; mkf "b" TInt (Some (VInt 0)) true;
-                     mkf "n" TInt (Some (VInt 70)) false] None.
-Definition refute_init_fs : vfields := VCons "a" (VInt 1) (VCons "b" (VInt 2) (VCons "n" (VInt 9) VNil)).
-
-Lemma identified_refuted :
-  exists h modname enum base dropo d fs,
-    wf_hier_gen h = true /\ enum_ok h enum /\ In d h /\ identified h base d = true /\ flat_class d = true
-    /\ flat_fields fs = true /\ vf_keys fs = field_names d /\ eff_drop_gen h base dropo = false
-    /\ from_ser_gen h modname enum base dropo (to_ser_gen modname false (VObj (c_name d) fs)) = Err (Raise "RuntimeError").
-Proof.
-  exists refute_init_h, "m", refute_init_enum, "Base", None, refute_init_d, refute_init_fs.
-  split; [vm_compute; reflexivity|]. split; [intros b n; reflexivity|]. split; [right; left; reflexivity|].
-  repeat split; vm_compute; reflexivity.
-Qed.
+                       mkf "n" TInt (Some (VInt 70)) false] None;
+    mkc "D2" ["Base"] [mkf "a" TInt (Some (VInt 0)) true; mkf "b" TInt (Some (VInt 0)) true] None ].
+Definition noninit_enum (b : string) : list string := map c_name (descendants noninit_h b).
+Definition noninit_v : value := VObj "D1" (VCons "a" (VInt 1) (VCons "b" (VInt 2) (VCons "n" (VInt 9) VNil))).
+Definition noninit_v2 : value := VObj "D2" (VCons "a" (VInt 1) (VCons "b" (VInt 2) VNil)).
 
 Lemma refute_enum_ok : enum_ok refute_h refute_enum.
 Proof. intros b n. unfold refute_enum. rewrite <- in_rev. reflexivity. Qed.
